@@ -3,6 +3,7 @@ package main
 import (
 	"encoding/json"
 	"sort"
+	"strings"
 	"sync"
 	"time"
 )
@@ -18,16 +19,25 @@ func minimise(bin, sim, prop, sig string, spec []byte, dir string) ([]byte, int)
 	if err := json.Unmarshal(spec, &tree); err != nil {
 		return spec, 0
 	}
+	tries := 1
+	if strings.Contains(sig, "/race:") {
+		tries = 3 // a race report may be absent from a single execution (random eviction in the detector's shadow memory)
+	}
 	test := func(t any) bool {
 		b, _ := json.Marshal(t)
-		r, stderr, err := runSpec(bin, sim, prop, b, dir, false)
-		if err != nil {
-			if v, ok := classifyCrash(prop, stderr); ok {
-				return v.Sig == sig
+		for k := 0; k < tries; k++ {
+			r, stderr, err := runSpec(bin, sim, prop, b, dir, false)
+			if err != nil {
+				if v, ok := classifyCrash(prop, stderr); ok && v.Sig == sig {
+					return true
+				}
+				continue
 			}
-			return false
+			if hasSig(r, prop, sig) {
+				return true
+			}
 		}
-		return hasSig(r, prop, sig)
+		return false
 	}
 	tried := 0
 	deadline := time.Now().Add(90 * time.Second)
